@@ -129,7 +129,16 @@ def _override_kinds(res, tier, only=None):
                 npos, kws = shapes[kk]
                 call = "(%s)" % ", ".join(["0"] * npos + ["%s=0" % x for x in kws])
                 le, la = _canon(sigs[ai], sigs[ci])
-                res.violation({"kind": "override-unsound-accept", "which": kind, "expected": le, "actual": la, "cpython": "raises"},
+                try:
+                    nsx = {}
+                    exec("def f(%s): pass" % S.render_params(sigs[ci]), nsx)
+                    nsx["f"](*([0] * npos), **{x: 0 for x in kws})
+                    why = "binds?"
+                except TypeError as e:
+                    msg = str(e)
+                    why = ("multiple-values" if "multiple values" in msg else "missing" if "missing" in msg else "unexpected-kw" if "unexpected keyword" in msg
+                           else "posonly-as-kw" if "positional-only" in msg else "too-many-pos" if "positional argument" in msg else "other")
+                res.violation({"kind": "override-unsound-accept", "which": kind, "expected": le, "actual": la, "cpython": why},
                               {"mode": "override-kinds", "tier": tier, "case": [kind, ai, ci], "order": 3 * 10 ** 9 + k},
                               "%s m(%s) in the base class, m(%s) in the subclass: not reported as an incompatible override, yet A.m%s binds and C.m%s raises TypeError"
                               % (kind, S.render_params(sigs[ai]), S.render_params(sigs[ci]), call, call))
